@@ -1252,10 +1252,11 @@ func c01Excluded(tc l4Case, f *syntax.File, sh *shape) string {
 	}
 	// C01-zsh-anon-function-word-body: zsh `function` NEWLINE `b` is parsed as an anonymous function
 	// (no name) whose body is the simple command `b`; it is printed `function b`, which reads as the
-	// header of a function named b.
+	// header of a function named b.  Likewise `function f` NEWLINE `b` prints `function f b` (two
+	// names).
 	if tc.Lang == syntax.LangZsh && sh.any(func(n syntax.Node) bool {
 		fd, ok := n.(*syntax.FuncDecl)
-		if !ok || !fd.RsrvWord || fd.Name != nil || len(fd.Names) > 0 || fd.Body == nil {
+		if !ok || !fd.RsrvWord || fd.Parens || fd.Body == nil {
 			return false
 		}
 		_, isBlock := fd.Body.Cmd.(*syntax.Block)
